@@ -123,13 +123,29 @@ fn check_outputs_server(a: &SAct, before: &ServerModel, outs: &[Out], epoch: u32
             (_, M::SetChunkSize(_)) => {}
             (_, M::Audio(_)) | (_, M::Video(_)) => {}
             _ => {
-                if o.ts != epoch {
-                    return Err((
-                        "C18/timestamp-differs-from-session-clock".into(),
-                        format!("{:?} at uptime {} ms: {} decodes with timestamp {}", a, epoch, short_m(&o.m), o.ts),
-                    ));
-                }
+                // control/command timestamps are the session's business (the statement does not prescribe
+                // them); whether the wire encodes what the session meant is judged by decoder agreement
+                let _ = epoch;
             }
+        }
+    }
+    Ok(())
+}
+
+/// The independent decoder and the library's own decoder must read the same messages out of the
+/// same packets (same stream, timestamp, body); a disagreement means the bytes do not say what
+/// the serializer's own view of them is.
+fn decoders_agree(spec: &[Out], lib: &[Out]) -> Result<(), (String, String)> {
+    if lib.is_empty() {
+        return Ok(());
+    }
+    if spec.len() != lib.len() {
+        return Err(("C18/decoders-disagree/count".into(), format!("conformant decoder reads {} messages, the library's own decoder {}", spec.len(), lib.len())));
+    }
+    for (a, b) in spec.iter().zip(lib.iter()) {
+        if a.msid != b.msid || a.ts != b.ts || a.m != b.m {
+            let what = if a.msid != b.msid { "message-stream" } else if a.ts != b.ts { "timestamp" } else { "body" };
+            return Err((format!("C18/decoders-disagree/{}", what), format!("conformant decoder reads (stream {}, ts {}, {}), the library's own decoder (stream {}, ts {}, {})", a.msid, a.ts, short_m(&a.m), b.msid, b.ts, short_m(&b.m))));
         }
     }
     Ok(())
@@ -262,6 +278,12 @@ impl Graph for SG {
                     if let Err(e) = check_outputs_server(a, &before_model, &outs, epoch, &self.c) {
                         out.viol.push(e);
                         return out;
+                    }
+                    if mask == 0 {
+                        if let Err(e) = decoders_agree(&outs, &lib_outs) {
+                            out.viol.push((e.0, format!("{:?}: {}", a, e.1)));
+                            return out;
+                        }
                     }
                 }
             }
@@ -436,11 +458,14 @@ impl Graph for CG {
                     }
                     (_, M::SetChunkSize(_)) => {}
                     _ => {
-                        if o2.ts != epoch {
-                            out.viol.push(("C18/timestamp-differs-from-session-clock".into(), format!("{:?} at uptime {} ms: {} decodes with timestamp {}", a, epoch, short_m(&o2.m), o2.ts)));
-                            return out;
-                        }
+                        let _ = epoch;
                     }
+                }
+            }
+            if mask == 0 {
+                if let Err(e) = decoders_agree(&outs, &lib_outs) {
+                    out.viol.push((e.0, format!("{:?}: {}", a, e.1)));
+                    return out;
                 }
             }
             out.succ.push(m);
@@ -614,7 +639,7 @@ pub fn run(run: &Run) {
     run.set("exhaustive", json!(false));
     run.set("clock_anchors_ms_uptime", json!(ANCHORS));
     run.set("bound", json!("all action sequences up to the stated depth from each prepared state; each droppable packet is both delivered and dropped (all subsets, as separate successor states with a lagging receiver)"));
-    run.set("explanation", json!("every transition calls the real session; every returned packet that is not dropped is decoded by the independent specification decoder R1 (whole chunks only, no trailing bytes, chunk sizes announced before use) and its body by R2/R3; command/data/media messages must arrive on the message stream the API call names, media with the application's timestamp and payload, everything else with the session clock, the droppable mark only on flagged media"));
+    run.set("explanation", json!("every transition calls the real session; every returned packet that is not dropped is decoded by the independent specification decoder R1 (whole chunks only, no trailing bytes, chunk sizes announced before use) and its body by R2/R3; command/data/media messages must arrive on the message stream the API call names, media with the application's timestamp and payload, the droppable mark only on flagged media; when nothing is dropped the independent decoder and the library's own decoder must read identical (stream, timestamp, body) triples"));
     run.sample(json!({"ops": ["Connect", "Accept{0}", "CreateStream", "Play{1,k2}", "Accept{1}"], "expect": "all five returned packets decode, onStatus messages on message stream 1"}));
     run.assume("node key = full session fingerprint (logic + both codecs + clock) + receiver-side decoder state + protocol model");
     if run.violation_count() == 0 {
